@@ -35,8 +35,8 @@ Init == \E ts \in TokSeqs, p \in Plans :
 \* what saltedTokenProvider(local, dest) makes of an ORIGINAL token of class c
 ProviderObs(c, dest) ==
     LET saltedHere == c \in C!OwnUnsalted \cup {"legLocal"} IN
-      [leak |-> ~saltedHere, same |-> ~saltedHere, salted |-> saltedHere, foreign |-> FALSE]
-LocalObs(c) == [leak |-> TRUE, same |-> TRUE, salted |-> FALSE, foreign |-> FALSE]
+      [leak |-> ~saltedHere, same |-> ~saltedHere, salted |-> saltedHere, foreign |-> FALSE, uuid |-> TRUE]
+LocalObs(c) == [leak |-> TRUE, same |-> TRUE, salted |-> FALSE, foreign |-> FALSE, uuid |-> TRUE]
 
 DeliverTo(dest) ==
     /\ \A i \in DOMAIN ctx : ctx[i] = "orig"          \* providers never write the context
